@@ -75,6 +75,20 @@ class P(framework.Prop):
                 out.append("search %s %s" % (wire.s("[%d]" % i), wire.val(arr)))
                 out.append("search %s %s" % (wire.s("a[%d]" % i), wire.val({"a": arr})))
                 out.append("search %s %s" % (wire.s("[*][%d]" % i), wire.val([arr, arr[::-1]])))
+        # numerals of several digits (both signs, leading zeros, the 32-bit edges) as index and as every slice part, on arrays long enough to tell them apart
+        for n in (13, 32, 120):
+            arr = list(range(n))
+            nums = [-11, -12, -19, -21, -25, -31, -99, -100, -101, -119, -120, -121, 10, 11, 12, 19, 21, 25, 31, 99, 100, 101, 119, "-011", "007", "-0", "00",
+                    2147483647, -2147483647, 1000000007, -1000000007]
+            for _ in range(60 if tier == "quick" else 3000):
+                a, b, c = [rng.choice(nums) if rng.random() < 0.6 else None for _ in range(3)]
+                if c in (0, "-0", "00"):
+                    c = 1
+                br = "[%s:%s%s]" % (part(a), part(b), "" if c is None else ":" + part(c))
+                out.append("search %s %s" % (wire.s(br), wire.val(arr)))
+            for i in nums:
+                out.append("search %s %s" % (wire.s("[%s]" % i), wire.val(arr)))
+                out.append("search %s %s" % (wire.s("a[%s]" % i), wire.val({"a": arr})))
         for d in [[1, 2, 3], [], None, True, 5, "ab", {}, {"a": [1]}, {"a": {"b": 1}}, {"a": "s"}, {"a": None}]:
             for br in ["[::0]", "[1:2:0]", "[:0:0]", "[0::0]", "[-1:-2:0]"]:
                 for e in [br, "a" + br, "missing" + br, "@" + br, "a.b" + br, "[*]" + br, "(a || @)" + br, "a" + br + "[0]", "[a" + br + "]", "{k: a" + br + "}"]:
@@ -104,6 +118,8 @@ class P(framework.Prop):
                 e = wire.uns(t[1]) if hasattr(wire, "uns") else None
             except Exception:
                 e = None
+            if _re.search(r"-0", e or ""):
+                e = None        # the lexer refuses a minus sign followed by 0 (model and implementation agree on that; not a slicing question)
             m = _re.match(r"^\[(-?\d*):(-?\d*)(?::(-?\d*))?\]$", e or "")
             if m and len(t) > 2 and t[2] == "[":
                 arr, _i = wire.unval(t, 2)
